@@ -34,7 +34,7 @@ structure GridScan where
   start : Option (Rat × Rat)
   stop : Option (Rat × Rat)
   grid : Grid.Grid
-deriving Repr
+deriving Repr, DecidableEq
 
 /-- `GridScan.__init__(start, end, gpts, sampling, endpoint)` (coordinates already validated to pairs) -/
 def gridInit (start stop : Option (Rat × Rat)) (gpts sampling : Val) (endpoint : List Bool) : Except String GridScan :=
@@ -114,9 +114,11 @@ def lineInit (start stop : Option (Rat × Rat)) (norm : Rat) (gpts : Option Int)
 def lineSetGpts (l : LineScan) (n : Int) : LineScan := lineAdjustSampling { l with gpts := some n }
 /-- `LineScan.sampling = s` -/
 def lineSetSampling (l : LineScan) (s : Rat) : LineScan := lineAdjustGpts { l with sampling := some s }
-/-- `LineScan.start = p` / `LineScan.end = p` (with the norm of the new difference) -/
-def lineSetStart (l : LineScan) (p : Rat × Rat) (norm : Rat) : LineScan := lineAdjustGpts { l with start := some p, norm := norm }
-def lineSetStop (l : LineScan) (p : Rat × Rat) (norm : Rat) : LineScan := lineAdjustGpts { l with stop := some p, norm := norm }
+/-- `LineScan._readjust` (called by `LineScan.start = p` / `LineScan.end = p`, with the norm of the new difference) : like `Grid.extent`, a changed extent keeps the number of positions and re-derives the sampling;
+gpts are derived from the sampling only while they are undefined -/
+def lineReadjust (l : LineScan) : LineScan := if l.gpts.isSome then lineAdjustSampling l else lineAdjustGpts l
+def lineSetStart (l : LineScan) (p : Rat × Rat) (norm : Rat) : LineScan := lineReadjust { l with start := some p, norm := norm }
+def lineSetStop (l : LineScan) (p : Rat × Rat) (norm : Rat) : LineScan := lineReadjust { l with stop := some p, norm := norm }
 
 /-- `LineScan.get_positions()` -/
 def linePositions (l : LineScan) : Except String (List (Rat × Rat)) :=
